@@ -229,7 +229,7 @@ func runC09(c *core.Ctx) {
 			c.Analysed(core.FuncName(exit))
 			var dec *ssa.Store
 			nDec := 0
-			core.Instrs(exit, func(ins ssa.Instruction) {
+			core.InstrsDeep(exit, func(_ *ssa.Function, ins ssa.Instruction) {
 				if st, ok := ins.(*ssa.Store); ok && core.FieldKey(st.Addr) == "DefaultWorkerPool.workerCount" {
 					if b, isB := st.Val.(*ssa.BinOp); isB && b.Op == token.SUB && core.IsIntConst(b.Y, 1) {
 						dec, nDec = st, nDec+1
@@ -239,15 +239,15 @@ func runC09(c *core.Ctx) {
 			okD := false
 			detail := "the deferred exit does not decrement the worker counter exactly once under the lock"
 			if nDec == 1 {
-				min, max := core.PathCount(exit, func(ins ssa.Instruction) int {
+				// the decrement may sit in a closure that a lock wrapper runs once (DeepWeight); locks from the whole-program lockset
+				min, max := core.PathCount(exit, core.DeepWeight(p, func(ins ssa.Instruction) int {
 					if ins == ssa.Instruction(dec) {
 						return 1
 					}
 					return 0
-				}, nil)
-				locks := core.LocksIn(exit, core.Lockset{})
+				}), nil)
 				held := false
-				for k := range locks[dec] {
+				for k := range li.At[dec] {
 					if len(k) > 7 && k[len(k)-7:] == ".lock:W" {
 						held = true
 					}
@@ -289,7 +289,7 @@ func runC09(c *core.Ctx) {
 					seenDec, woke := false, false
 					for _, b := range path {
 						for _, ins := range b.Instrs {
-							if ins == ssa.Instruction(dec) {
+							if core.ContainsDeep(p, ins, dec) {
 								seenDec = true
 							}
 							if call, isC := ins.(*ssa.Call); isC && seenDec && len(call.Call.Args) > 0 {
@@ -354,10 +354,10 @@ func runC09(c *core.Ctx) {
 				if !isR || r.Block() == sched.Recover {
 					return
 				}
-				v := core.RetVals(r)[0]
+				v := core.Resolve(core.RetVals(r)[0])
 				isFullEdge, isNotFullEdge := false, false
 				for _, m := range core.EdgeCmps(r.Block()) {
-					if m.X == ssa.Value(offer) && core.GlobalName(m.Y) == "ErrQueueIsFull" {
+					if core.Resolve(m.X) == ssa.Value(offer) && core.GlobalName(m.Y) == "ErrQueueIsFull" {
 						if m.Op == token.EQL {
 							isFullEdge = true
 						} else if m.Op == token.NEQ {
@@ -440,12 +440,27 @@ func runC09(c *core.Ctx) {
 	}
 	for _, name := range []string{"Invoke", "InvokeWithTimeout"} {
 		f := p.Method(p.Worker, "DefaultInvokable", name)
-		if f == nil || len(f.AnonFuncs) != 1 {
-			c.Unknown("R4", "DefaultInvokable."+name, "-", "method or closure not found")
+		if f == nil {
+			c.Unknown("R4", "DefaultInvokable."+name, "-", "method not found")
 			continue
 		}
 		c.Analysed(core.FuncName(f))
-		cl := f.AnonFuncs[0]
+		// the closure is handed to the pool's Schedule*/ exactly once
+		nS := 0
+		var job *core.BoundClosure
+		core.Instrs(f, func(ins ssa.Instruction) {
+			if call, isC := ins.(*ssa.Call); isC && call.Call.IsInvoke() && (call.Call.Method.Name() == "Schedule" || call.Call.Method.Name() == "ScheduleWithTimeout") {
+				nS++
+				if len(call.Call.Args) > 0 {
+					job = core.ResolveClosure(p, call.Call.Args[0])
+				}
+			}
+		})
+		if job == nil {
+			c.Unknown("R4", "DefaultInvokable."+name, p.Pos(f.Pos()), "the job handed to Schedule is not a closure built here or by a closure factory")
+			continue
+		}
+		cl := job.Fn
 		min, max := core.PathCount(cl, func(ins ssa.Instruction) int {
 			if call, isC := ins.(*ssa.Call); isC && core.Callee(&call.Call) == nil && !call.Call.IsInvoke() {
 				return 1
@@ -455,16 +470,9 @@ func runC09(c *core.Ctx) {
 		argOK := false
 		core.Instrs(cl, func(ins ssa.Instruction) {
 			if call, isC := ins.(*ssa.Call); isC && core.Callee(&call.Call) == nil && len(call.Call.Args) == 1 {
-				if capturedBinding(f, cl, core.Path(call.Call.Args[0])) == ssa.Value(f.Params[1]) {
+				if b := job.Bind[core.Path(call.Call.Args[0])]; b != nil && b == core.Resolve(ssa.Value(f.Params[1])) {
 					argOK = true
 				}
-			}
-		})
-		// the closure is handed to the pool's Schedule*/ exactly once
-		nS := 0
-		core.Instrs(f, func(ins ssa.Instruction) {
-			if call, isC := ins.(*ssa.Call); isC && call.Call.IsInvoke() && (call.Call.Method.Name() == "Schedule" || call.Call.Method.Name() == "ScheduleWithTimeout") {
-				nS++
 			}
 		})
 		c.Check(min == 1 && max == 1 && argOK && nS == 1, "R4", "DefaultInvokable."+name, p.Pos(f.Pos()), "schedules one job that calls callee(val) exactly once", fmt.Sprintf("the scheduled job calls the callee %d..%d times / not with val (%v) / scheduled %d times", min, max, argOK, nS))
